@@ -6,7 +6,7 @@ From Coq Require Import ZArith List Bool.
 Import ListNotations.
 Open Scope Z_scope.
 
-Definition text := list Z.
+Notation text := (list Z) (only parsing).
 Definition len {A} (l : list A) : Z := Z.of_nat (length l).
 
 (* ---- Python primitives used by the module ---- *)
